@@ -21,6 +21,8 @@ import launch_common as lc
 # row bits : user1 pid2 mnt4 uts8 ipc16 net32 cgns64 cgfd128 amb256
 FAMILY = [0, 1, 2, 64, 65, 72, 88, 24, 192, 200, 193, 320, 463, 32, 120, 16, 80, 66, 9, 136, 257, 331, 8, 128, 129, 256, 448, 216, 208]
 ROWS = [0, 1, 3, 128, 129, 2]
+# = Launch_Gen!GateSites (branch-selecting flags seccomp ptrace stop sync ucg, everything else off)
+GATE = {a + b + c + d + e for a in (0, 8) for b in (0, 16) for c in (0, 32) for d in (0, 64) for e in (0, 128)}
 
 
 def mc_cfg(rows, sites):
@@ -56,7 +58,7 @@ def run(ctx):
     quick = ctx.quick()
     # ---- 1. design level (runs while the real launches are made)
     rows = {rng.choice([0, 1, 2, 3])} if quick else {rng.choice([0, 2]), rng.choice([1, 3])}
-    mcsites = set(range(512)) if not quick else set(FAMILY) | set(rng.sample(range(512), 100))
+    mcsites = set(range(512)) if not quick else set(FAMILY) | GATE | set(rng.sample(range(512), 80))
     mc = {}
 
     def do_mc():
@@ -75,27 +77,36 @@ def run(ctx):
     ctx.tlc_ok("Launch_Gen", g)
     allc = ctx.read_ndjson(os.path.join(g.dir, "c07cases.ndjson"))
     allc.sort(key=lambda c: (c["fail"], c["idx"], c["cb"], c["s"], c["r"]))
+    # the gate family (Launch_Gen!GateSites x GateSteps) is run in every tier
+    cases = [c for c in allc if c["gate"]]
+    ngate = len(cases)
     fam = {}
     for c in allc:
+        if c["gate"]:
+            continue
         o = c["opt"]
-        # class = (failure point, callback, which sync site / early-return mode the configuration uses)
-        k = (c["fail"], c["idx"], c["cb"], o["sync"], o["ptrace"] and o["seccomp"], o["stop"], o["user"])
+        # class = (failure point, callback, the flags that select the parent's branch and the child's sync site)
+        k = (c["fail"], c["idx"], c["cb"], o["sync"], o["ptrace"], o["seccomp"], o["stop"], o["user"])
         fam.setdefault(k, []).append(c)
-    cases = []
-    per = ctx.pick(1, 3)
+    pool = []
+    per = ctx.pick(1, 2)
     for k in sorted(fam, key=str):
         v = fam[k]
-        cases += rng.sample(v, min(per, len(v)))
-    if quick and len(cases) > 170:
+        pool += rng.sample(v, min(per, len(v)))
+    budget = ctx.pick(80, 700)
+    if len(pool) > budget:
         keep = {}
-        for c in cases:        # at least one per (failure point, index, callback)
+        for c in pool:        # at least one per (failure point, index, callback)
             keep.setdefault((c["fail"], c["idx"], c["cb"]), c)
-        rest = [c for c in cases if c not in keep.values()]
-        cases = list(keep.values()) + rng.sample(rest, 170 - len(keep))
+        kept = list(keep.values())
+        rest = [c for c in pool if all(c is not x for x in kept)]
+        pool = kept + rng.sample(rest, max(0, budget - len(kept)))
+    cases += pool
     for i, c in enumerate(cases):
         c["id"] = i + 1
-    ctx.log("generated %d applicable (configuration, failure point, callback) cases, running %d (%d failure points)" % (
-        len(allc), len(cases), len({(c["fail"], c["idx"]) for c in cases})))
+    ctx.log("generated %d applicable (configuration, failure point, callback) cases, running %d (%d gate family, %d failure points)" % (
+        len(allc), len(cases), ngate, len({(c["fail"], c["idx"]) for c in cases})))
+    ctx.cov["gate_family_cases"] = ngate
 
     # ---- 3. real runs
     res = {}
